@@ -90,6 +90,28 @@ func cmdVerify(args []string) int {
 	cfg := &solverCfg{quickMs: 3000, fullMs: *timeout * 1000, workers: 16, seed: 1, keepDir: *keep}
 	bad := 0
 	for _, name := range fs.Args() {
+		if strings.HasPrefix(name, "lemma.") {
+			found := false
+			for _, lem := range e.specs.Lemmas {
+				if "lemma."+lem.Name == name {
+					found = true
+					res := e.verifyLemma(lem, lem.Props)
+					solveObligs(res.obligs, cfg)
+					solveObligs(res.covers, cfg)
+					printResult(res, *verbose)
+					for _, o := range res.obligs {
+						if o.Status != "discharged" {
+							bad++
+						}
+					}
+				}
+			}
+			if !found {
+				fmt.Printf("%s: no such lemma\n", name)
+				bad++
+			}
+			continue
+		}
 		fn := e.funcs[name]
 		if fn == nil {
 			fmt.Printf("%s: no such function\n", name)
